@@ -174,8 +174,8 @@ def innerprod_body(ctx, case):
     cm.compare(ctx, np.array(float(r)), expect, bound, nterms, cm.intvalued(hx), "innerprod-value")
 
 
-for _k, (_q, _t) in {"tensor": (500, 10000), "sptensor": (500, 10000), "ktensor": (400, 8000),
-                     "ttensor": (400, 8000), "sumtensor": (300, 5000)}.items():
+for _k, (_q, _t) in {"tensor": (1000, 10000), "sptensor": (1000, 10000), "ktensor": (800, 8000),
+                     "ttensor": (800, 8000), "sumtensor": (600, 5000)}.items():
     cell(f"C02/innerprod/{_k}", strategy=_inner_strategy(_k), quick=_q, thorough=_t, shards=(2, 8))(innerprod_body)
 
 
